@@ -1,5 +1,14 @@
-"""E-RET: interprocedural sets of lzma_ret enumerators a function may return."""
-from . import ex
+"""E-RET: interprocedural sets of lzma_ret enumerators a function may return.
+
+Path-sensitive inside each function (E-FD over its lzma_ret-typed locals, so the
+`return_if_error` idiom and `if (ret != LZMA_STREAM_END) return ret;` refine the
+sets), flow-insensitive summaries for lzma_ret-typed record fields and parameters,
+indirect calls through slots, and call-site specialisation on pointer parameters
+that the callee compares with NULL (lzma_vli_decode/encode single- vs multi-call).
+"""
+from . import ex, fd
+
+NONNULL = 999999999
 
 
 class RetSets:
@@ -9,91 +18,268 @@ class RetSets:
         self.enum = prog.enum(enum_name)
         self.all = frozenset(self.enum.values())
         self.ret_type = ret_type
-        self.sets = {}      # function name -> frozenset
+        self.sets = {}       # function name -> frozenset (all contexts)
+        self.spec = {}       # (function name, ctx) -> frozenset
+        self.fieldsets = {}
+        self.paramsets = {}
+        self.nullparams = {}  # function name -> [(index, param name)]
         self._solve()
 
     def _is_ret_fn(self, f):
         return f.ret.replace("const ", "").strip() in (self.ret_type, "enum " + self.ret_type)
 
-    def _expr(self, f, n, varsets, depth=0):
-        n = ex.strip(n)
-        if n is None or depth > 8:
-            return self.all
-        k = n.get("k")
-        if k in ("const", "enum"):
-            return frozenset([n["v"]])
-        if k == "var":
-            if n.get("s") in ("l",) and n.get("id") in varsets:
-                return varsets[n["id"]]
-            return self.all
-        if k == "cond":
-            return self._expr(f, n["t"], varsets, depth + 1) | self._expr(f, n["f"], varsets, depth + 1)
-        if k == "call":
-            return self.call_set(n)
-        if k == "asg" and n["op"] == "=":
-            return self._expr(f, n["r"], varsets, depth + 1)
-        if k == "bin" and n["op"] == ",":
-            return self._expr(f, n["r"], varsets, depth + 1)
-        return self.all
-
-    def call_set(self, c):
+    # ---- call evaluation ---------------------------------------------------
+    def _targets(self, c, f):
         fn = c.get("fn")
         if fn:
-            if fn in self.sets:
-                return self.sets[fn]
-            if self.prog.functions.get(fn):
-                return self.sets.get(fn, frozenset())
-            return self.all
+            return [fn]
         cal = ex.strip(c.get("callee"))
         if cal is not None and cal.get("k") == "un" and cal["op"] == "*":
             cal = ex.strip(cal["e"])
         fk = ex.field_key(cal)
-        if fk is None and cal is not None and cal.get("k") == "var":
-            return self.all
         if fk:
-            ts = self.cg.slot_targets(fk)
-            if not ts:
+            return sorted(self.cg.slot_targets(fk)) or None
+        if cal is not None and cal.get("k") == "var" and f is not None and cal.get("s") == "p":
+            ts = self.cg.slot_targets(("param", f.name, cal["n"]))
+            return sorted(ts) or None
+        return None
+
+    def _ctx_of_call(self, name, c):
+        nps = self.nullparams.get(name)
+        if not nps:
+            return [()]
+        opts = [[]]
+        for idx, pn in nps:
+            a = ex.strip(c["args"][idx]) if idx < len(c["args"]) else None
+            if a is not None and ex.is_const(a, 0):
+                vals = ["null"]
+            elif a is not None and a.get("k") == "un" and a["op"] == "&":
+                vals = ["nonnull"]
+            else:
+                vals = ["null", "nonnull"]
+            opts = [o + [(pn, v)] for o in opts for v in vals]
+        return [tuple(o) for o in opts]
+
+    def call_set(self, c, f=None):
+        ts = self._targets(c, f)
+        if ts is None:
+            return self.all
+        out = frozenset()
+        for t in ts:
+            if not self.prog.functions.get(t):
                 return self.all
-            out = frozenset()
-            for t in ts:
-                out |= self.sets.get(t, frozenset()) if self.prog.functions.get(t) else self.all
+            if t not in self.sets:
+                return self.all       # not an lzma_ret function
+            if c.get("fn") and self.nullparams.get(t):
+                for ctx in self._ctx_of_call(t, c):
+                    out |= self.spec.get((t, ctx), frozenset())
+            else:
+                out |= self.sets[t]
+        return out
+
+    # ---- solver ---------------------------------------------------------------
+    def _find_nullparams(self, f):
+        out = []
+        ptr = {p["n"]: i for i, p in enumerate(f.params) if "*" in p["ty"]}
+        if not ptr:
             return out
-        return self.all
+        hit = set()
+        for b in f.blocks.values():
+            if b.term and "cond" in b.term:
+                c = ex.strip(b.term["cond"])
+                while c is not None and c.get("k") == "un" and c["op"] == "!":
+                    c = ex.strip(c["e"])
+                if c is None:
+                    continue
+                if c.get("k") == "bin" and c["op"] in ("==", "!="):
+                    l, r = ex.strip(c["l"]), ex.strip(c["r"])
+                    for x, y in ((l, r), (r, l)):
+                        if x is not None and x.get("k") == "var" and x["n"] in ptr and ex.is_const(y, 0):
+                            hit.add(x["n"])
+        # keep only parameters that are also re-assigned in the body (mode switch)
+        assigned = set()
+        for b, i, e in f.iter_elems():
+            for (l, r, op, node) in ex.writes(e):
+                ls = ex.strip(l)
+                if ls is not None and ls.get("k") == "var" and ls["n"] in hit:
+                    assigned.add(ls["n"])
+        for n in sorted(hit & assigned):
+            out.append((ptr[n], n))
+        return out
+
+    def _run_fn(self, f, ctx):
+        names = sorted({v["n"] for v in f.vars if not v.get("param") and "lzma_ret" in v["ty"]})
+        keys = [fd.Key("var", nm, domain=self.all, label=nm) for nm in names]
+        keys.append(fd.Key("retval", "$ret", label="$ret"))
+        for pn, v in ctx:
+            keys.append(fd.Key("var", pn, label=pn))
+
+        def cv(c, s):
+            return self.call_set(c, f)
+
+        g = fd.FD(self.prog, f, keys, cg=self.cg, call_values=cv, split=40)
+        g.value_hook = lambda n: self._value(f, n)
+        st = g.make_state(**{"$ret": [-999]})
+        for pn, v in ctx:
+            st = g.state_with(st, pn, [0] if v == "null" else [NONNULL])
+        g.run([st])
+        for (kind, key, r, bid, i) in self.fn_sites.get(f.key, ()):
+            tgt = self.fieldsets if kind == "f" else self.paramsets
+            vals = frozenset()
+            for s_ in g.states_before_elem(bid, i):
+                v = g.aeval(r, s_)
+                if v is None:
+                    vals = self.all
+                    break
+                vals |= v
+            vals = frozenset(x for x in vals if x in self.all) if vals is not self.all else vals
+            new = tgt[key] | vals
+            if new != tgt[key]:
+                tgt[key] = new
+                self._misc_changed = True
+        out = set()
+        for node in g.nodes:
+            if node[0] == f.exit:
+                rv = g.get(node[1], "$ret")
+                if rv is None:
+                    return self.all
+                out |= set(rv)
+        out.discard(-999)
+        return frozenset(out)
+
+    def _value(self, f, n):
+        """Abstract value of non-tracked lzma_ret-typed reads (fields, parameters)."""
+        k = n.get("k")
+        if k == "mem":
+            fk = ex.field_key(n)
+            if fk in self.fieldsets:
+                return self.fieldsets[fk]
+        if k == "var" and n.get("s") == "p":
+            ps = self.paramsets.get((f.name, n["n"]))
+            if ps is not None:
+                return ps
+        return None
 
     def _solve(self):
-        fns = [f for f in self.prog.all_functions() if self._is_ret_fn(f)]
+        allfns = list(self.prog.all_functions())
+        fns = [f for f in allfns if self._is_ret_fn(f)]
         for f in fns:
             self.sets.setdefault(f.name, frozenset())
+            np_ = self._find_nullparams(f)
+            if np_:
+                self.nullparams[f.name] = np_
+        for r in self.prog.records.values():
+            for fl in r["fields"]:
+                if "lzma_ret" in fl["ty"] and "(" not in fl["ty"]:
+                    self.fieldsets[(r["name"], fl["n"])] = frozenset()
+        retparams = {}
+        for f in allfns:
+            for idx, pr in enumerate(f.params):
+                if pr["ty"].replace("const ", "").strip() == "lzma_ret":
+                    retparams.setdefault(f.name, []).append((idx, pr["n"]))
+                    self.paramsets[(f.name, pr["n"])] = frozenset()
+        self.retparams = retparams
+
+        def contexts(name):
+            nps = self.nullparams.get(name)
+            if not nps:
+                return [()]
+            opts = [[]]
+            for idx, pn in nps:
+                opts = [o + [(pn, v)] for o in opts for v in ("null", "nonnull")]
+            return [tuple(o) for o in opts]
+
+        # sites that write lzma_ret fields / pass lzma_ret parameters
+        fsites = []
+        self.fn_sites = {}
+        for f in allfns:
+            for b, i, e in f.iter_elems():
+                for (l, r, op, node) in ex.writes(e):
+                    fk = ex.field_key(l)
+                    if fk in self.fieldsets and r is not None:
+                        self.fn_sites.setdefault(f.key, []).append(("f", fk, r, b.id, i))
+                for c in ex.calls(e, into_refs=False):
+                    if c.get("fn") in retparams:
+                        for idx, pn in retparams[c["fn"]]:
+                            if idx < len(c["args"]):
+                                self.fn_sites.setdefault(f.key, []).append(
+                                    ("p", (c["fn"], pn), c["args"][idx], b.id, i))
+        site_fns = [f for f in allfns if f.key in self.fn_sites and not self._is_ret_fn(f)]
+
+        self._misc_changed = False
         changed = True
         rounds = 0
-        while changed and rounds < 50:
+        deps = {}
+        for f in fns:
+            deps[f.name] = set(self.cg.name_callees.get(f.name, ())) | {f.name}
+        changed_names = None          # None = everything
+        while changed and rounds < 60:
             changed = False
             rounds += 1
+            misc_changed = self._misc_changed
+            self._misc_changed = False
+            now_changed = set()
+            for f in site_fns:
+                self._run_fn(f, ())
             for f in fns:
-                # flow-insensitive value sets of lzma_ret-typed locals
-                varsets = {}
-                retvars = {v["id"] for v in f.vars
-                           if not v.get("param") and "lzma_ret" in v["ty"]}
-                for _ in range(3):
-                    for b, i, e in f.iter_elems():
-                        for (l, r, op, node) in ex.writes(e):
-                            ls = ex.strip(l)
-                            if ls is not None and ls.get("k") == "var" and ls.get("id") in retvars:
-                                if r is None:
-                                    varsets[ls["id"]] = self.all
-                                else:
-                                    cur = varsets.get(ls["id"], frozenset())
-                                    varsets[ls["id"]] = cur | self._expr(f, r, varsets)
-                for vid in retvars:
-                    varsets.setdefault(vid, frozenset())
-                out = frozenset()
-                for b, i, e in f.iter_elems():
-                    if e.get("k") == "ret" and e.get("e") is not None:
-                        out |= self._expr(f, e["e"], varsets)
-                new = self.sets[f.name] | out
-                if new != self.sets[f.name]:
-                    self.sets[f.name] = new
+                if changed_names is not None and not misc_changed \
+                        and not (deps[f.name] & changed_names):
+                    continue
+                tot = frozenset()
+                for ctx in contexts(f.name):
+                    r = self._run_fn(f, ctx) | self.spec.get((f.name, ctx), frozenset())
+                    if self.spec.get((f.name, ctx)) != r:
+                        self.spec[(f.name, ctx)] = r
+                        changed = True
+                        now_changed.add(f.name)
+                    tot |= r
+                tot |= self.sets[f.name]
+                if tot != self.sets[f.name]:
+                    self.sets[f.name] = tot
                     changed = True
+                    now_changed.add(f.name)
+            changed_names = now_changed
+            if self._misc_changed:
+                changed = True
+        self.rounds = rounds
+
+    def _flat(self, f, n, depth=0):
+        """Flow-insensitive value set of an lzma_ret expression (for field/param summaries)."""
+        n = ex.strip(n)
+        if n is None or depth > 6:
+            return self.all
+        k = n.get("k")
+        if k in ("const", "enum"):
+            return frozenset([n["v"]])
+        if k == "call":
+            return self.call_set(n, f)
+        if k == "cond":
+            return self._flat(f, n["t"], depth + 1) | self._flat(f, n["f"], depth + 1)
+        if k == "mem":
+            fk = ex.field_key(n)
+            if fk in self.fieldsets:
+                return self.fieldsets[fk]
+            return self.all
+        if k == "var":
+            if n.get("s") == "p":
+                ps = self.paramsets.get((f.name, n["n"]))
+                return ps if ps is not None else self.all
+            if n.get("s") == "l":
+                out = frozenset()
+                found = False
+                for b, i, e in f.iter_elems():
+                    for (l, r, op, node) in ex.writes(e):
+                        ls = ex.strip(l)
+                        if ls is not None and ls.get("k") == "var" and ls.get("id") == n.get("id"):
+                            found = True
+                            if r is None or op != "=":
+                                return self.all
+                            rr = ex.strip(r)
+                            if rr is not None and rr.get("k") == "var" and rr.get("id") == n.get("id"):
+                                continue
+                            out |= self._flat(f, r, depth + 1)
+                return out if found else self.all
+        return self.all
 
     def of(self, name):
         return self.sets.get(name)
